@@ -153,6 +153,26 @@ def uncond_scalar_write(loop, name):
                s[1][1].lower() == name for s in loop[5])
 
 
+def int_div_subscript(loop, name):
+    """AST fact: array `name` is subscripted with an expression containing
+    integer division inside the loop."""
+    hit = [False]
+
+    def chk(e):
+        if e[0] == "arr" and e[1].lower() == name:
+            for sb in e[2]:
+                if sb[0] != "rng":
+                    flite.walk_expr(sb, lambda x: hit.__setitem__(
+                        0, hit[0] or (x[0] == "bin" and x[1] == "/")))
+
+    def st(s_):
+        if s_[0] == "assign":
+            flite.walk_expr(s_[1], chk)
+            flite.walk_expr(s_[2], chk)
+    flite.walk_stmts(loop[5], st)
+    return hit[0]
+
+
 THREADS = [1, 2, 4, 8]
 SCHEDULES = ["static", "static,1", "dynamic,1", "guided"]
 
@@ -307,6 +327,8 @@ def batch(arg):
                           if cond_write_fact(floops[k], v)]
                     if fp:
                         mech = "scalar.cond_write_privatised"
+                    elif int_div_subscript(floops[k], var):
+                        mech = "subscript_int_division"
                     elif var not in masked and uncond_scalar_write(
                             floops[k], var) and not any(
                                 var == x_[0] for x_ in []):
